@@ -817,9 +817,12 @@ class Intrinsics:
             raise Unsupported(f"attribute {attr} of number")
         if ex.is_concrete(obj):
             try:
-                return ExternalRef(builtins.getattr(obj, attr), f"{type(obj).__name__}.{attr}")
+                v = builtins.getattr(obj, attr)
             except AttributeError:
                 ex.raise_builtin("AttributeError", f".{attr}")
+            if isinstance(v, (str, int, float, bool, type(None), tuple, range)):
+                return v
+            return ExternalRef(v, f"{type(obj).__name__}.{attr}")
         raise Unsupported(f"attribute {attr} of {obj!r}")
 
     def func_attr(self, f: FuncRef, attr):
@@ -1197,6 +1200,8 @@ class Intrinsics:
 
     def method(self, recv, tname, mname, args, kwargs):
         ex = self.ex
+        if isinstance(recv, (str, int, float, tuple, range, frozenset)) and not isinstance(recv, Tagged) and all(ex.is_concrete(a) for a in args) and all(ex.is_concrete(a) for a in kwargs.values()):
+            return ex.concrete_op(lambda: builtins.getattr(recv, mname)(*args, **kwargs))
         h = _METHODS.get((tname, mname))
         if h is None:
             if ex.is_concrete(recv) and all(ex.is_concrete(a) for a in args):
